@@ -185,7 +185,10 @@ pub fn tree_walker(
             .next_back()
             .ok_or(XcpError::InvalidSource("Failed to find source directory name."))?;
 
-        let target_base = if dest.exists() && dest.is_dir() && !config.no_target_directory {
+        // A failed probe of the destination must not be read as "not a
+        // directory": that would silently change where everything goes.
+        let dest_is_dir = dest.try_exists()? && dest.metadata()?.is_dir();
+        let target_base = if dest_is_dir && !config.no_target_directory {
             dest.join(sourcedir)
         } else {
             dest.to_path_buf()
